@@ -70,6 +70,8 @@ PAIRS = [
     ('[2][3]int', '[3][2]int', True),
     ('**int', '*int', True),
     ('struct{ _ int; A int }', 'struct{ A int; _ int }', True),
+    ('struct{ _ int; X int }', 'struct{ _ int; X int }', True),
+    ('[]struct{ _ int8; Y string }', '[]struct{ _ int8; Y string }', False),
     ('struct{ A int; _ int8 }', 'struct{ A int; _ uint8 }', True),
     ('func() (int, error)', 'func() (error, int)', False),
     ('func(...lib.T)', 'func(...lib.U)', False),
@@ -229,6 +231,21 @@ type V struct{ N int }
 
 func (v *V) B() int { return v.N + 7 }
 
+// the method table is sorted by name with unexported names qualified by the
+// package path: "Lire" < "tvc07iface.aide" < "Écrire" - the exported methods
+// are not a prefix of the table
+type Doc struct{ N int }
+
+func (d Doc) Lire() int   { return d.N + 21 }
+func (d Doc) aide() int   { return d.N + 22 }
+func (d Doc) Écrire() int { return d.N + 23 }
+
+type Écrivain interface{ Écrire() int }
+type Tout interface {
+	Lire() int
+	Écrire() int
+}
+
 func probe(x any) int {
 	r := 0
 	if s, ok := x.(base.Sealed); ok {
@@ -262,6 +279,16 @@ func Run(k int) int {
 	xs := [9]any{base.T{N: k}, &base.T{N: k}, &base.P{N: k}, E{base.T{N: k}, 1}, &E{base.T{N: k}, 1}, U{k}, EP{&base.P{N: k}}, W{k}, &W{k}}
 	for _, x := range xs {
 		trace(probe(x))
+	}
+	var ec Écrivain = Doc{k}
+	var to Tout = &Doc{k + 1}
+	trace(ec.Écrire()*1000 + to.Lire() + to.Écrire() + Doc{k}.aide())
+	var dany any = Doc{k}
+	if w, ok := dany.(Écrivain); ok {
+		trace(w.Écrire())
+	}
+	if w, ok := dany.(Tout); ok {
+		trace(w.Lire() - w.Écrire())
 	}
 	trace(probe(V{k}))
 	trace(probe(&V{k}))
